@@ -143,6 +143,27 @@ class Ctx(object):
                 break
         return rejects
 
+    def selftest(self, judge_fn, good_events, corruptions, what):
+        """Binding demonstration: take accepted events, corrupt ONE recorded field each, and require the trace spec to reject
+        every corrupted copy. judge_fn(list of events) -> list of (idx, clause, ...). A corruption is (name, fn) where fn gets a deep
+        copy of an event and returns the corrupted event or None if it does not apply to that event."""
+        import copy as _copy
+        batch, names = [], []
+        for name, fn in corruptions:
+            for e in good_events:
+                c = fn(_copy.deepcopy(e))
+                if c is not None:
+                    batch.append(c)
+                    names.append(name)
+                    break
+            else:
+                raise MachineryError('self-test %s: corruption %r applies to no recorded event' % (what, name))
+        rej = {r[0] for r in judge_fn(batch)}
+        missed = [names[i] for i in range(len(batch)) if i not in rej]
+        if missed:
+            raise MachineryError('self-test %s: the trace spec ACCEPTED corrupted events: %s' % (what, missed))
+        self.extra.setdefault('selftest_corruptions_rejected', []).extend(names)
+
     # ---- verdicts ----------------------------------------------------------------------------
     def case(self, key):
         self.evaluations += 1
